@@ -271,3 +271,62 @@ def _h2(is_async: bool, vi: int, cuts: typing.Any, trunc: int | None, rst: int |
                     sig + (f":reset({code})-silently-short" if rst is not None else ":silently-short"))
         if failed is not None:
             P.check(failed.documented() or "h2." in failed.kind(), "error-raised", lambda: sig + f":{failed.kind()}")
+
+
+class _OneFrame:
+    """Origin that answers every request with one DATA frame of `size` bytes that also ends the stream - sent only
+    when the client's windows allow it (otherwise as soon as a WINDOW_UPDATE makes room)."""
+
+    def __init__(self, size: int) -> None:
+        self.size = size
+        self.waiting: list[int] = []
+
+    def on_request(self, srv: H2Server, sid: int) -> None:
+        srv.conn.send_headers(sid, [(b":status", b"200"), (b"x-token", srv.path(sid))])
+        self.waiting.append(sid)
+        self.pump(srv)
+
+    def on_window(self, srv: H2Server, ev: typing.Any) -> None:
+        self.pump(srv)
+
+    def pump(self, srv: H2Server) -> None:
+        while self.waiting:
+            sid = self.waiting[0]
+            if srv.conn.local_flow_control_window(sid) < self.size:
+                return
+            srv.conn.send_data(sid, bytes([sid % 251]) * self.size, end_stream=True)
+            self.waiting.pop(0)
+
+
+@harness(
+    "C02", "h2_many_responses",
+    quick=[{"n": 1100}],
+    example=dict(x=0),
+    require=("complete",),
+    timeout={"quick": 400, "thorough": 900},
+    symbolic="(none: one concrete history; the solver only confirms the single path)",
+    bounds="1,100 consecutive responses of one full 16,384-byte DATA frame (which also ends the stream) on one HTTP/2 connection - 18 MB in all, more than the connection-level credit the client starts with - from a server that strictly obeys the client's windows",
+    outside="other response sizes and counts",
+    stubs=("strict h2 server that only sends what the client's windows allow",),
+)
+def h2_many_responses(x: int) -> None:
+    """
+    pre: x == 0
+    post: _
+    """
+    with concrete():
+        from .common import Setup
+
+        n = shard("n", 1100)
+        su = Setup("h2prior", False, max_connections=1, h2_policy=_OneFrame(16384))
+        bad = None
+        for i in range(n):
+            o = su.api.request(su.pool, "GET", su.url(f"r{i}"), extensions={"timeout": {"pool": 0, "read": 50}})
+            if not (o.ok and o.value.status == 200 and len(o.value.content) == 16384 and len(set(o.value.content)) == 1):
+                bad = (i, o.kind(), len(o.value.content) if o.ok else None)
+                break
+        P.check(bad is None, "every-well-formed-response-is-delivered-in-full",
+                lambda: f"h2:many-responses:stalled-or-short-at-#{bad[0] // 100 * 100}+:{bad[1]}")
+        P.check(len(su.net.socks) == 1 and not su.origins[0].violations, "one-connection-no-violation", "h2:many-responses:connection")
+        if bad is None:
+            P.cover("complete")
